@@ -981,8 +981,11 @@ class ProductSpaceElement(LinearSpaceElement):
                         # not to retrieve scalar values from these
                         # elements, we use a slice of size 1.
                         idx = indices[1]
-                        # (`idx + 1` is 0 for the last entry given as -1)
-                        indexed = [p[idx:idx + 1 or None] for p in part]
+                        if isinstance(idx, Integral):
+                            # (`idx + 1` is 0 for the last entry given as -1)
+                            indexed = [p[idx:idx + 1 or None] for p in part]
+                        else:
+                            indexed = [p[idx] for p in part]
                     else:
                         # Here we're still in the "product space chain",
                         # so we can use recursion to go on.
